@@ -56,7 +56,9 @@ REQUIRED_PROBES = {"quick": ["lookup_served_from_cache", "definition_after_first
                              "utc_instant_family"]}
 REQUIRED_PROBES["thorough"] = REQUIRED_PROBES["quick"]
 
-ID_POOL = ["Sim/A", "Sim/B", "/Sim/A", "Europe/Berlin", "W. Europe Standard Time", "Sïm/Ü", "Sim/B/"]
+# "sim/a" / "SIM/B" / "SÏM/Ü": other ids than "Sim/A" / "Sim/B" / "Sïm/Ü" (ids are compared as they are written)
+ID_POOL = ["Sim/A", "Sim/B", "/Sim/A", "Europe/Berlin", "W. Europe Standard Time", "Sïm/Ü", "Sim/B/", "sim/a", "SIM/B",
+           "SÏM/Ü"]
 PROVIDER_ZONE = {"Europe/Berlin": "Europe/Berlin", "W. Europe Standard Time": "Europe/Berlin"}
 UTC = timezone.utc
 COMP_PROPS = {"VEVENT": ["DTSTART", "DTEND", "RECURRENCE-ID", "RDATE", "EXDATE"], "VTODO": ["DTSTART", "DUE", "RDATE"],
@@ -79,6 +81,8 @@ def id_class(tzid):
         return "windows"
     if tzid.startswith("/"):
         return "slash"
+    if tzid in ("sim/a", "SIM/B", "SÏM/Ü"):
+        return "case-variant"
     return "custom"
 
 
